@@ -1,7 +1,7 @@
-// property C14, harness c14_cors::c14_default_options_handler (c14_cors.rs:153)
+// property C14, harness c14_cors::c14_default_options_handler (c14_cors.rs:178)
 // failed checks:
 //   unwinding assertion loop 0  @ memcmp  (<builtin-library-memcmp>:25)
 // native replay: {}
 // replay with: ./check C14 --replay /verif/replays/C14/c14_default_options_handler.rs
-// kani command: cargo kani --target-dir /var/tmp/ohkami-verif/kani-target -Z stubbing -Z unstable-options --harness c14_cors::c14_default_options_handler --exact
+// kani command: cargo kani --target-dir /var/tmp/ohkami-verif-c14/kani-target -Z stubbing -Z unstable-options --harness c14_cors::c14_default_options_handler --exact --cbmc-args --unwindset memcmp.0:24
 
